@@ -46,6 +46,13 @@ def rand_entry(rng, ty, kind):
 
 
 def gen(tier, rng):
+    # shuffled so that the expensive sizes are spread over the parallel shards
+    cases = list(_gen(tier, rng))
+    rng.shuffle(cases)
+    return cases
+
+
+def _gen(tier, rng):
     quick = tier == "quick"
     pads = lambda r, c: (rng.randrange(r + 1), rng.randrange(c + 1))
     # ---- exhaustive 2x2 over {-1,0,1,2}
